@@ -185,6 +185,47 @@ def run_exh(tape, out, idx):
     out.ev('exh high=%d seed=%d cases=%d' % (high, seed, n))
 
 
+# Master seeds whose DEFAULT-range stream (randint(2**31)) repeats a value within its first 260
+# draws: (seed, first position, second position).  Found by brute force over seeds 0..1.6e6
+# (about 1 seed in 47 000); each entry is re-verified against the independent reference when it
+# is used.  With these the dedupe logic is exercised on the range ELFI actually uses, where a
+# sampled seed practically never collides.
+EARLY_COLLISIONS = [(20036, 152, 205),
+                    (104366, 75, 238),
+                    (105820, 116, 258),
+                    (158314, 80, 202),
+                    (227409, 11, 169),
+                    (238554, 169, 215),
+                    (258965, 77, 166),
+                    (291714, 15, 162),
+                    (295915, 183, 236),
+                    (558812, 84, 194),
+                    (561236, 85, 207),
+                    (582518, 8, 205),
+                    (600688, 149, 231),
+                    (719661, 16, 132),
+                    (761212, 29, 92),
+                    (804565, 184, 234),
+                    (859393, 108, 112),
+                    (943478, 228, 255),
+                    (1011388, 64, 67),
+                    (1058164, 91, 142),
+                    (1069036, 60, 214),
+                    (1069393, 125, 194),
+                    (1087310, 220, 224),
+                    (1096082, 129, 188),
+                    (1118086, 10, 61),
+                    (1246392, 75, 223),
+                    (1296646, 100, 224),
+                    (1301859, 130, 173),
+                    (1366110, 54, 246),
+                    (1413966, 78, 237),
+                    (1418327, 89, 123),
+                    (1461054, 82, 87),
+                    (1534556, 191, 234),
+                    (1543045, 60, 121)]
+
+
 def gen_index_history(tape, high, maxlen=40):
     n = tape.int('hist_len', 2, maxlen)
     top = min(high - 1, tape.choice('index_top', [5, 20, 60, 200, 500]))
@@ -210,6 +251,19 @@ def run_hist(tape, out):
     high = tape.choice('high', [2 ** 31, 2 ** 31, 1000, 50, 12, 2 ** 32, 2 ** 16 + 1, 5000, 300])
     seed = tape.int('seed', 0, 2 ** 31 - 1)
     pattern, seq = gen_index_history(tape, high)
+    special = []
+    if tape.chance('early_collision_seed', 1, 6):
+        seed, ci, cj = EARLY_COLLISIONS[tape.int('collision_entry', 0, len(EARLY_COLLISIONS) - 1)]
+        high = 2 ** 31
+        raw = np.random.RandomState(seed).randint(2 ** 31, size=cj + 1, dtype='uint32')
+        if raw[ci] != raw[cj]:
+            raise RuntimeError('EARLY_COLLISIONS entry %r does not collide (harness table)' % seed)
+        # the indices around the repeated draw, in tape-chosen order, inside the history
+        special = tape.shuffle('collision_indices', [ci, cj - 1, cj, cj + 1])
+        at = tape.int('collision_at', 0, len(seq))
+        seq = seq[:at] + special + seq[at:]
+        pattern = 'collision+' + pattern
+        out.probes['early_collision_seed_default_range'] += 1
     ref = ref_values(seed, high, max(seq) + 1)
     if tape.chance('numpy_typed_indices', 1, 4):
         # batch indices often come out of numpy (arange, argmax ...): same seeds
@@ -222,7 +276,7 @@ def run_hist(tape, out):
         'explicit_high', 1, 2) else None, typed, ref)
     if ok:
         # fresh cache per request and no cache at all give the same values
-        for i in sorted(set(seq))[:8]:
+        for i in sorted(set(seq))[:8] + sorted(special):
             a = call(get_sub_seed, seed, i, high, {})
             b = call(get_sub_seed, seed, i, high, None)
             if a != ref[i] or b != ref[i]:
